@@ -13,6 +13,12 @@ pub fn check(a: &Analysis, _aux: &mut Aux, t: &mut Tally) -> Vec<Violation> {
         if s.carrier.out.is_some() || !s.carrier.l3_ok {
             continue;
         }
+        if !s.carrier.l4_ok {
+            // an ICMP / ICMPv6 message whose checksum does not verify is no request a responder has
+            // to honour (one that verifies checksums drops it, the unchanged one answers)
+            t.any("request-checksum-does-not-verify");
+            continue;
+        }
         let mut bad = |rule: &str, key: String, detail: String| {
             v.push(Violation {
                 prop: "C05",
